@@ -15,7 +15,7 @@ SibLeaves == {Col("i"), Col("x"), Col("s"), Col("d"), Col("b"), Col("o"),
 BoolSibs == {Col("b"), Col("c"), Const(Null), Const(F)}
 Lists == {Const(ListV(<<IntV(1), IntV(2), IntV(7)>>)), Const(ListV(<<StrV("a"), StrV("B")>>)), Const(ListV(<<>>)),
           Const(ListV(<<Rat(1, 2), IntV(0)>>))}
-Fn1 == {"abs", "neg", "length", "upper", "lower", "year", "month", "day", "round", "bool", "int", "decimal", "date"}
+Fn1 == {"abs", "neg", "length", "upper", "lower", "year", "month", "day", "round", "bool", "int", "decimal", "date", "str"}
 Fn2 == {"date_add", "date_diff", "safediv"}
 
 Parents(e, S) ==
